@@ -658,4 +658,72 @@ example :
     (match resolveFRef E 10 2 with | .err (.noncomposite "q" 8) => true | _ => false) = true := by
   decide
 
+/-! ### A renaming that leads back to itself (finding `hang:…:_resolve_field_reference`) -/
+
+def objF : Obj := ⟨["m.emb", "Foo", "f"], .field (.atomic 0)⟩
+def objG : Obj := ⟨["m.emb", "Foo", "g"], .field (.virtAlias 0)⟩
+
+/-- `struct Foo:  0 [+1] Foo f;  let g = f.g;  let h = g.x` — field reference 0 is `f.g`,
+field reference 1 is `g.x`. -/
+def exH : FEnv :=
+  { objs := [objF, objG, ⟨["m.emb", "Foo", "h"], .field (.virtAlias 1)⟩],
+    typeCanon := fun _ => some ["m.emb", "Foo"],
+    headCanon := fun i => if i = 0 then some ["m.emb", "Foo", "f"] else some ["m.emb", "Foo", "g"],
+    frefs := fun i => if i = 0 then some ⟨ctxFoo, [⟨"f", 1, 2⟩, ⟨"g", 3, 4⟩]⟩
+                      else some ⟨ctxFoo, [⟨"g", 5, 6⟩, ⟨"x", 7, 8⟩]⟩ }
+
+theorem exH_ref0 (n : Nat) :
+    resolveFRef exH n 0 = .fuel ∨
+      resolveFRef exH n 0 = .ok [["m.emb", "Foo", "f"], ["m.emb", "Foo", "g"]] := by
+  by_cases h : resolveFRef exH n 0 = .fuel
+  · exact Or.inl h
+  · right
+    have h5 : resolveFRef exH 5 0 = .ok [["m.emb", "Foo", "f"], ["m.emb", "Foo", "g"]] := by decide
+    have a := resolveFRef_mono exH n (max n 5) 0 (Nat.le_max_left ..) h
+    have b := resolveFRef_mono exH 5 (max n 5) 0 (Nat.le_max_right ..) (by rw [h5]; exact fun h => by cases h)
+    rw [← a, b, h5]
+
+theorem exH_physical (n : Nat) (prev : PathElem) : physical exH n objG prev = .inl .fuel := by
+  induction n with
+  | zero => rfl
+  | succ n ih =>
+    have hk : objG.kind = .field (.virtAlias 0) := rfl
+    have hl : ([["m.emb", "Foo", "f"], ["m.emb", "Foo", "g"]] : List Path).getLast? =
+        some ["m.emb", "Foo", "g"] := by decide
+    have hf : findObject exH.objs ["m.emb", "Foo", "g"] = some objG := by decide
+    simp only [physical, hk]
+    rcases exH_ref0 n with h | h
+    · simp only [h]
+    · simp only [h, hl, hf, ih]
+
+/-- **Counterexample (the model mirrors the hang of the real code).**  In
+`struct Foo: 0 [+1] Foo f; let g = f.g; let h = g.x` the renaming field `g` renames … itself:
+the alias-following loop of `_resolve_field_reference` gets no nearer to a physical field, and
+*no* amount of fuel makes the model answer for `g.x` — the real loop never ends (replayed on
+the real code: findings.d/C12.json, key `hang:symbol_resolver.py:_resolve_field_reference`).
+The spec neither binds nor rejects this path (its rules are inductive: no finite derivation),
+so `C12_member_lookup` / `C12_member_lookup_rejects` say nothing here — their hypothesis `hF`
+is exactly what fails. -/
+theorem C12_self_renaming_counterexample :
+    (∀ F, resolveFRef exH F 1 = .fuel) ∧
+    (∀ cs, ¬ PathBound exH 1 cs) ∧ (∀ e, ¬ PathRejected exH 1 e) := by
+  have hall : ∀ F, resolveFRef exH F 1 = .fuel := by
+    intro F
+    have hfr : exH.frefs 1 = some ⟨ctxFoo, [⟨"g", 5, 6⟩, ⟨"x", 7, 8⟩]⟩ := rfl
+    have hh : exH.headCanon 1 = some ["m.emb", "Foo", "g"] := rfl
+    have hf : findObject exH.objs ["m.emb", "Foo", "g"] = some objG := by decide
+    match F with
+    | 0 => rfl
+    | 1 => simp only [resolveFRef, hfr, hh, hf, members]
+    | m + 2 => simp only [resolveFRef, hfr, hh, hf, members, exH_physical]
+  refine ⟨hall, ?_, ?_⟩
+  · intro cs h
+    obtain ⟨f, hf⟩ := member_complete exH _ h
+    rw [hall f] at hf
+    cases hf
+  · intro e h
+    obtain ⟨f, hf⟩ := member_fail_complete exH _ h
+    rw [hall f] at hf
+    cases hf
+
 end Emboss.Scope
